@@ -164,6 +164,26 @@ impl RrdpArchive {
     }
 }
 
+#[cfg(feature = "verif-hooks")]
+impl RrdpArchive {
+    /// Like `objects` for the verification harness: every object's name,
+    /// the hash stored in its meta data and its content, without any
+    /// interpretation of the name.
+    #[allow(clippy::type_complexity)]
+    pub fn verif_objects_with_hash(
+        &self
+    ) -> Result<Vec<(Vec<u8>, [u8; 32], Vec<u8>)>, ArchiveError> {
+        let mut res = Vec::new();
+        for item in self.archive.objects()? {
+            let (name, meta, data) = item?;
+            let mut hash = [0u8; 32];
+            hash.copy_from_slice(meta.hash.as_slice());
+            res.push((name.into_owned(), hash, data.into_owned()));
+        }
+        Ok(res)
+    }
+}
+
 impl RrdpArchive {
     /// Publishes a new object to the archie.
     pub fn publish_object(
@@ -544,6 +564,26 @@ impl RepositoryState {
     /// it cannot be converted from a Unix timestamp into a date-time.
     pub fn last_modified(&self) -> Option<DateTime<Utc>> {
         self.last_modified_ts.and_then(|ts| Utc.timestamp_opt(ts, 0).single())
+    }
+}
+
+
+//--- Access for the verification harness (codec checks)
+
+#[cfg(feature = "verif-hooks")]
+impl RepositoryState {
+    /// `parse` for the verification harness.
+    pub fn verif_parse(
+        reader: &mut impl io::Read
+    ) -> Result<Self, io::Error> {
+        Self::parse(reader)
+    }
+
+    /// `compose` for the verification harness.
+    pub fn verif_compose(
+        &self, writer: &mut impl io::Write
+    ) -> Result<(), io::Error> {
+        self.compose(writer)
     }
 }
 
